@@ -76,6 +76,13 @@ impl History {
 }
 
 fn gen_history(cs: &mut Cs) -> History {
+    let n = 2 + cs.below(14);
+    gen_history_n(cs, n)
+}
+
+/// a history of `n` items (the independence check makes the first of its two histories large
+/// now and then: dozens of tracked ids)
+fn gen_history_n(cs: &mut Cs, n: usize) -> History {
     let mut items = vec![];
     let next = std::cell::Cell::new(1u32);
     let fresh = || {
@@ -85,7 +92,6 @@ fn gen_history(cs: &mut Cs) -> History {
     };
     let mut types: Vec<u32> = vec![];
     let mut values: Vec<u32> = vec![];
-    let n = 2 + cs.below(14);
     for _ in 0..n {
         match cs.below(12) {
             0 | 1 => {
@@ -465,7 +471,12 @@ fn sub_structured(input: &[u8], st: &mut Stats) -> R {
 /// the decision depends only on the current parse: B after A == B alone; A twice equal
 fn sub_independence(input: &[u8], st: &mut Stats) -> R {
     let mut cs = Cs::new(input);
-    let a = gen_history(&mut cs);
+    let a = if cs.below(3) == 0 {
+        let n = 40 + cs.below(120);
+        gen_history_n(&mut cs, n)
+    } else {
+        gen_history(&mut cs)
+    };
     let b = gen_history(&mut cs);
     let (wa, wb) = (a.words(), b.words());
     let alone = std::thread::scope(|s| s.spawn(|| outcome(&wb)).join().unwrap())?;
@@ -539,7 +550,7 @@ pub fn run(ctx: &Ctx) {
     run_regress(ctx, SUBS);
     drive_enum(ctx, &SUBS[0], 9 * 2 * 2 * 3 * 2 * 3 * 3);
     drive_random(ctx, &SUBS[1], ctx.n(60_000, 30_000_000), 600);
-    drive_random(ctx, &SUBS[2], ctx.n(1_000, 150_000), 1200);
+    drive_random(ctx, &SUBS[2], ctx.n(2_000, 300_000), 3000);
     drive_random(ctx, &SUBS[3], ctx.n(20_000, 10_000_000), 600);
     drive_random(ctx, &SUBS[4], ctx.n(20_000, 10_000_000), 600);
     drive_random(ctx, &SUBS[5], ctx.n(20_000, 10_000_000), 640);
@@ -549,7 +560,7 @@ pub fn finish(ctx: &Ctx) -> i32 {
     crate::engine::finish(
         ctx,
         Finish {
-            rule: "cases: (a) complete grid: {int,float} x widths {8,16,32,64,1,24,48,128,0} x signedness x consumer {OpConstant, OpSpecConstant, OpSwitch with 2 cases} x {1,2} literal words x propagation depth 0-2 x distance 0-2; (b) random histories of 2-15 instructions interleaving OpTypeInt/OpTypeFloat (supported and unsupported widths), typed values (OpUndef/OpVariable/OpLoad/OpIAdd chains), consumers placed before/after their declarations, each encoded with 1 or 2 literal words, and unrelated instructions; ids defined once; (b') the same histories under a bijective id renaming that sends 1-3 defined ids to 0 / 0x7fffffff / 0x80000000 / 0xffffffff; (b'') histories in which type ids are declared more than once: the parser must follow one consistent reading for the whole binary (latest preceding declaration, or first), and inserting an unrelated OpUndef anywhere must not change what any consumer delivers; (b''') histories with OpFunction / OpFunctionParameter / OpLabel / OpReturn / OpFunctionEnd scattered through them (consumers in later functions, declarations at module scope or in earlier function bodies); (c) pairs (A, B): B after A in the same thread vs B alone in a fresh thread, A twice. Oracle: model R3 (inside reference parser R1): words consumed / TypeUnsupported / accept-or-reject of each consumer, delivered variant LiteralBit32 vs LiteralBit64 with value = low | high<<32, assemble emits the input's word count, outcomes independent of earlier parses. non-trivial = consumer whose type was declared >= 2 instructions earlier or reaches it through >= 1 propagation step (independence: every pair); distinct = hash of the words.",
+            rule: "cases: (a) complete grid: {int,float} x widths {8,16,32,64,1,24,48,128,0} x signedness x consumer {OpConstant, OpSpecConstant, OpSwitch with 2 cases} x {1,2} literal words x propagation depth 0-2 x distance 0-2; (b) random histories of 2-15 instructions interleaving OpTypeInt/OpTypeFloat (supported and unsupported widths), typed values (OpUndef/OpVariable/OpLoad/OpIAdd chains), consumers placed before/after their declarations, each encoded with 1 or 2 literal words, and unrelated instructions; ids defined once; (b') the same histories under a bijective id renaming that sends 1-3 defined ids to 0 / 0x7fffffff / 0x80000000 / 0xffffffff; (b'') histories in which type ids are declared more than once: the parser must follow one consistent reading for the whole binary (latest preceding declaration, or first), and inserting an unrelated OpUndef anywhere must not change what any consumer delivers; (b''') histories with OpFunction / OpFunctionParameter / OpLabel / OpReturn / OpFunctionEnd scattered through them (consumers in later functions, declarations at module scope or in earlier function bodies); (c) pairs (A, B) - A one time in three a large history of 40-160 instructions (dozens of tracked ids) -: B after A in the same thread vs B alone in a fresh thread, A twice. Oracle: model R3 (inside reference parser R1): words consumed / TypeUnsupported / accept-or-reject of each consumer, delivered variant LiteralBit32 vs LiteralBit64 with value = low | high<<32, assemble emits the input's word count, outcomes independent of earlier parses. non-trivial = consumer whose type was declared >= 2 instructions earlier or reaches it through >= 1 propagation step (independence: every pair); distinct = hash of the words.",
             assumptions: vec!["ids are defined once except in `redeclared-ids`, where the statement leaves open which declaration decides and both consistent readings are accepted".into()],
             trusted_base: vec!["width model R3".into(), "reference parser R1".into()],
         },
